@@ -112,3 +112,7 @@ def java_classes():
 if __name__ == "__main__":
     java_classes()
     print(spline_replay())
+
+
+def timemap_replay():
+    return build("timemap_replay", [], os.path.join(HARNESS, "timemap_main.cpp"))
